@@ -79,6 +79,17 @@ def gen(tier, seed, shard, nshards):
                 yield "sampled-pdag", {"masks": _gc.sampled_pdag(("C07", seed, "sp", k), 6, 12, max_und=9, max_edges=11)}
             else:
                 yield "sampled-dag", {"masks": _gc.sampled_dag(("C07", seed, "sd", k), 6, 12, max_edges=11)}
+    for k in range(2400 if tier == "quick" else 60000):
+        if k % nshards == shard:
+            yield "sampled-pdag", {"masks": _gc.dense_pdag(("C07", seed, "dense", k))}
+    for k in range(96 if tier == "quick" else 2400):
+        if k % nshards == shard:
+            yield "sampled-dag", {"masks": _gc.dense_dag(("C07", seed, "densedag", k))}
+    for k in range(800 if tier == "quick" else 20000):
+        if k % nshards == shard:
+            rp = _gc.ring_pdag(("C07", seed, "ring", k))
+            if G.directed_part_acyclic(rp):
+                yield "sampled-pdag", {"masks": rp}
     for k in range(n["weighted"] // 3):
         if k % nshards == shard:
             yield "weighted", {"W": _gc.near_chain(("C07", seed, "nc", k))}
